@@ -211,14 +211,19 @@ fn one_edit(rng: &mut Rng, m: &mut Maps) -> Option<&'static str> {
 }
 
 /// The state of a child version: `parent` after 0..=7 random edits (mostly 1..=4). Returns the operations applied.
+/// A script whose net effect cannot be written as a diff (e.g. "name an unnamed class" followed by "remove that
+/// class": the parent's entry has no name a `Remove` could quote) is drawn again.
 pub fn edit(rng: &mut Rng, parent: &Maps) -> (Maps, Vec<&'static str>) {
-    let mut m = parent.clone();
-    let want = if rng.chance(1, 25) { 0 } else { 1 + rng.small(6) };
-    let mut ops = vec![];
-    let mut tries = 0;
-    while ops.len() < want && tries < 6 * want + 6 { tries += 1; if let Some(op) = one_edit(rng, &mut m) { ops.push(op); } }
-    debug_assert!(m.check().is_empty());
-    (m, ops)
+    for _ in 0..12 {
+        let mut m = parent.clone();
+        let want = if rng.chance(1, 25) { 0 } else { 1 + rng.small(6) };
+        let mut ops = vec![];
+        let mut tries = 0;
+        while ops.len() < want && tries < 6 * want + 6 { tries += 1; if let Some(op) = one_edit(rng, &mut m) { ops.push(op); } }
+        debug_assert!(m.check().is_empty());
+        if ref_diff(parent, &m, false).is_ok() { return (m, ops); }
+    }
+    (parent.clone(), vec![])
 }
 
 // ------------------------------------------------------------------------------------------------------------
